@@ -11,7 +11,7 @@
 (* Record: <<"BEH", json>> with json = {"perfect":..,"nall":..,"prog":[command strings],*)
 (* "exits":[predicted exit codes],"pair":clause (a) relates the two         *)
 (* directories,"rep","op","ex","cls": the last command}; command string:    *)
-(*   op|d|src|type|enc|max|m|sh|copy                                        *)
+(*   op|d|src|type|enc|max|m|sh|copy|code                                      *)
 EXTENDS Pipeline, Json
 VARIABLES hist, exits, last
 gvars == <<vars, hist, exits, last>>
@@ -20,21 +20,26 @@ GenDirs == {"A", "B"}
 GenTypeEncs == {<<"image", "raw">>, <<"segmentation", "raw">>,
                 <<"segmentation", "compressed_segmentation">>}
 GenMaxes == {"all", "two", "one"}
-GenMaxesQuick == {"all", "one"}
+GenMaxesQuick == {"all"}
 GenMethods == {"auto", "majority", "stride"}
 GenMethodsQuick == {"auto", "majority"}
 GenTypeEncsQuick == {<<"image", "raw">>, <<"segmentation", "compressed_segmentation">>}
 GenShardings == {"nosh", "s110"}
+GenCodes == {"RPI", "LIP"}
+GenCodesQuick == {"RPI"}
 GenCfg == {[perfect |-> TRUE, nall |-> 3]}
 
 Cs(c) == c.op \o "|" \o c.d \o "|" \o c.src \o "|" \o c.type \o "|" \o c.enc \o "|"
-         \o c.max \o "|" \o c.m \o "|" \o c.sh \o "|" \o c.copy
+         \o c.max \o "|" \o c.m \o "|" \o c.sh \o "|" \o c.copy \o "|" \o c.code
 
 \* storage class the last command worked on (after the command):
 \* "S" sharded info, "P" unsharded info, "-" no info; Convert: source then destination
 ShOf(ds) == IF ds.info.n = 0 THEN "-" ELSE IF ds.info.sh = "nosh" THEN "P" ELSE "S"
-Class(c, D) == IF c.op = "Convert" THEN ShOf(D[c.src]) \o ShOf(D[c.d]) \o c.copy
-               ELSE IF c.op \in {"Vol", "Compute", "Stats"} THEN ShOf(D[c.d])
+\* "s": the full resolution of that directory was written by slices-to-precomputed
+FromSlices(ds) == IF ds.chunks[1] \in {SliceContent(code) : code \in Codes} THEN "s" ELSE ""
+Class(c, D) == IF c.op = "Convert" THEN ShOf(D[c.src]) \o ShOf(D[c.d]) \o c.copy \o FromSlices(D[c.src])
+               ELSE IF c.op \in {"Vol", "Slices", "Compute", "Stats"}
+                    THEN ShOf(D[c.d]) \o FromSlices(D[c.d])
                ELSE "-"
 
 GenInit == Init /\ hist = << >> /\ exits = << >> /\ last = <<"-", 0, FALSE, "-">>
